@@ -166,8 +166,23 @@ func c13Letters(mode string) map[string]httpReq {
 	nn["preRoot"] = "zz"
 	unsat2 := cloneDoc(v2)
 	unsat2["postRoot"] = "0x5"
+	// twins of valid1 that COLLIDE with it on everything but one field: same declared input hash with one
+	// sibling changed (unprovable), and the same batch under another declared input hash (unprovable)
+	badproof1 := cloneDoc(v1)
+	if mp, ok := badproof1["merkleProofs"].([]any); ok && len(mp) > 0 {
+		if row, ok := mp[0].([]any); ok && len(row) > 0 {
+			nr := append([]any{}, row...)
+			nr[0] = "0x" + new(big.Int).Add(bigs(fmt.Sprint(row[0])), big.NewInt(1)).Text(16)
+			nmp := append([]any{}, mp...)
+			nmp[0] = nr
+			badproof1["merkleProofs"] = nmp
+		}
+	}
+	badhash1 := cloneDoc(v1)
+	badhash1["inputHash"] = "0x" + new(big.Int).Add(bigs(fmt.Sprint(v1["inputHash"])), big.NewInt(1)).Text(16)
 	return map[string]httpReq{
 		"valid1": {"POST", mustJSON(v1), "valid1"}, "valid2": {"POST", mustJSON(v2), "valid2"}, "unsat": {"POST", mustJSON(unsat), "unsat"}, "unsat2": {"POST", mustJSON(unsat2), "unsat2"},
+		"badproof1": {"POST", mustJSON(badproof1), "badproof1"}, "badhash1": {"POST", mustJSON(badhash1), "badhash1"},
 		"wrongdims": {"POST", mustJSON(wd), "wrongdims"}, "nonnumeric": {"POST", mustJSON(nn), "nonnumeric"}, "GET": {"GET", "", "GET"},
 	}
 }
@@ -183,15 +198,19 @@ func c13Body(c *ev.Ctx) {
 		bound   int
 	}
 	var jobs []job
-	pairs := [][]string{{"valid1", "valid2"}, {"valid1", "unsat2"}, {"unsat2", "valid1"}, {"nonnumeric", "valid1"}, {"valid1", "valid1"}, {"unsat", "wrongdims"}, {"wrongdims", "valid2"}}
+	pairs := [][]string{{"valid1", "badproof1"}, {"badproof1", "valid1"}, {"valid1", "badhash1"}, {"badhash1", "valid1"}, {"valid1", "valid2"}, {"valid1", "unsat2"}, {"unsat2", "valid1"}, {"nonnumeric", "valid1"}, {"valid1", "valid1"}, {"unsat", "wrongdims"}, {"wrongdims", "valid2"}}
 	if quick {
 		// one proof per execution keeps an execution at ~3 core-seconds: the preempted thread
 		// is the valid request in one order and the invalid one in the other
 		// the two requests of a pair differ in every field (different tree states), so any
 		// shared scratch state shows
-		jobs = append(jobs, job{"insertion", []string{"valid1", "unsat2"}, 1}, job{"deletion", []string{"unsat2", "valid1"}, 1},
+		// requests that collide on everything but one field first (anything keyed by part of a request
+		// confuses them), then requests that differ in every field
+		jobs = append(jobs, job{"insertion", []string{"valid1", "badproof1"}, 1}, job{"deletion", []string{"badhash1", "valid1"}, 1},
+			job{"deletion", []string{"unsat2", "valid1"}, 1},
 			// two error responses with different contents: no proof is generated, so a deeper bound is cheap
-			job{"insertion", []string{"nonnumeric", "wrongdims"}, 2})
+			job{"insertion", []string{"nonnumeric", "wrongdims"}, 2},
+			job{"insertion", []string{"valid1", "unsat2"}, 1})
 	} else {
 		for _, m := range []string{"insertion", "deletion"} {
 			for _, p := range pairs {
@@ -225,7 +244,7 @@ func c13Body(c *ev.Ctx) {
 		}
 		var mu sync.Mutex
 		nfail := 0
-		e := &vsched.Explorer{Bound: jb.bound, Fine: true, UseKeys: false, CountOnly: true, MaxSteps: 2000000, Workers: 1 /* one execution at a time: the code under test may (wrongly) hold package-level state, which parallel executions in one process would share */, Deadline: c.Deadline, NewRun: c13Run(c, &sc), AfterRun: vhttp.Uninstall,
+		e := &vsched.Explorer{Bound: jb.bound, Fine: true, UseKeys: false, CountOnly: true, MaxSteps: 2000000, Workers: c13Workers() /* one execution at a time when the instrumented packages hold package-level state, which parallel executions in one process would share */, Deadline: c.Deadline, NewRun: c13Run(c, &sc), AfterRun: vhttp.Uninstall,
 			// alternatives only between connection (handler) threads: the interleavings of
 			// connection set-up, clients and server start-up/shut-down belong to C14
 			MaxChoiceDev: 1,
@@ -348,4 +367,14 @@ func c13RacePass(c *ev.Ctx) (runs int, reports int, msg string) {
 // the packages start from init()), as opposed to the harness's clients and scrapers.
 func sutThread(name string) bool {
 	return strings.HasPrefix(name, "conn-") || strings.HasPrefix(name, "daemon")
+}
+
+func c13Workers() int {
+	if vsched.HasSharedState() {
+		return 1
+	}
+	if w := workers(); w < 6 {
+		return w
+	}
+	return 6
 }
